@@ -31,17 +31,27 @@ type qCase struct {
 	Size int    `json:"size"`
 	Op   string `json:"op"` // ack | nack
 	V    int    `json:"v"`
+	// Laps: full trips round the sequence space (every packet acknowledged)
+	// made before the state is built, so that every slot of the
+	// retransmission buffer has been used before.
+	Laps int `json:"laps,omitempty"`
 }
 
 // buildQueue constructs a queue in state (base, base+size) through the same
 // calls the connection makes (addPacket, processACK).
-func buildQueue(s, base, size int) (q *gbn.VerifQueue, err string) {
+func buildQueue(s, base, size int, laps ...int) (q *gbn.VerifQueue, err string) {
 	defer func() {
 		if r := recover(); r != nil {
 			err = fmt.Sprintf("panic while constructing state: %v", r)
 		}
 	}()
 	q = gbn.VerifNewQueue(uint8(s))
+	if len(laps) > 0 {
+		for i := 0; i < laps[0]*s; i++ {
+			seq := q.Add(&gbn.PacketData{})
+			q.ProcessACK(seq)
+		}
+	}
 	for i := 0; i < base; i++ {
 		seq := q.Add(&gbn.PacketData{})
 		q.ProcessACK(seq)
@@ -65,7 +75,7 @@ func checkQueueOp(c qCase) (violation string) {
 		}
 	}()
 	s, n := c.S, c.S-1
-	q, cerr := buildQueue(s, c.Base, c.Size)
+	q, cerr := buildQueue(s, c.Base, c.Size, c.Laps)
 	if q != nil {
 		defer q.Stop()
 	}
@@ -152,7 +162,10 @@ func TestC09EnumQueue(t *testing.T) {
 		if c.Base+c.Size >= c.S {
 			lab += "_wrapped"
 		}
-		rec.Case(nt, fmt.Sprintf("%d/%d/%d/%s/%d", c.S, c.Base, c.Size, c.Op, c.V), lab)
+		if c.Laps > 0 {
+			lab += "_after_a_lap"
+		}
+		rec.Case(nt, fmt.Sprintf("%d/%d/%d/%s/%d/%d", c.S, c.Base, c.Size, c.Op, c.V, c.Laps), lab)
 		if v := checkQueueOp(c); v != "" {
 			if nviol < 8 && !known[v[:10]] {
 				rec.Violation(v, "queue_op", c)
@@ -166,6 +179,10 @@ func TestC09EnumQueue(t *testing.T) {
 				for v := 0; v < 256; v++ {
 					run(qCase{S: s, Base: base, Size: size, Op: "ack", V: v})
 					run(qCase{S: s, Base: base, Size: size, Op: "nack", V: v})
+					// the same state reached after a full trip round the
+					// sequence space
+					run(qCase{S: s, Base: base, Size: size, Op: "ack", V: v, Laps: 1})
+					run(qCase{S: s, Base: base, Size: size, Op: "nack", V: v, Laps: 1})
 				}
 			}
 		}
@@ -230,7 +247,8 @@ func TestC09RapidQueue(t *testing.T) {
 			Base: rapid.IntRange(0, s-1).Draw(rt, "base"),
 			Size: rapid.IntRange(0, s-1).Draw(rt, "size"),
 			Op:   rapid.SampledFrom([]string{"ack", "nack"}).Draw(rt, "op"),
-			V:    rapid.IntRange(0, 255).Draw(rt, "v")}
+			V:    rapid.IntRange(0, 255).Draw(rt, "v"),
+			Laps: rapid.SampledFrom([]int{0, 0, 1, 2}).Draw(rt, "laps")}
 		in := inWindow(c.S, c.Base, c.Size, c.V)
 		rec.Case(in || c.V >= s, fmt.Sprintf("%+v", c), map[bool]string{true: "in_window", false: "outside"}[in])
 		if v := checkQueueOp(c); v != "" {
